@@ -13,6 +13,7 @@ theorem tie_c16TypeCode : Generated.c16TypeCode = ExpectedC16.c16TypeCode := by 
 theorem tie_c16TypeSize : Generated.c16TypeSize = ExpectedC16.c16TypeSize := by decide +kernel
 theorem tie_c16Flags : Generated.c16Flags = ExpectedC16.c16Flags := by decide +kernel
 theorem tie_c16Format : Generated.c16Format = ExpectedC16.c16Format := by decide +kernel
+theorem tie_c16Oid : Generated.c16Oid = ExpectedC16.c16Oid := by decide +kernel
 theorem tie_c16ValueNumber : Generated.c16ValueNumber = ExpectedC16.c16ValueNumber := by decide +kernel
 
 /-- the candidate lists are not vacuous -/
@@ -20,6 +21,7 @@ theorem candidates_cover :
     ExpectedC16.covers Generated.c16TypeTokens ExpectedC16.mustTypeTokens = true ∧
     ExpectedC16.covers Generated.c16FlagTokens ExpectedC16.mustFlagTokens = true ∧
     ExpectedC16.covers Generated.c16FormatTokens ExpectedC16.mustFormatTokens = true ∧
-    ExpectedC16.covers Generated.c16ValueTokens ExpectedC16.mustValueTokens = true := by decide +kernel
+    ExpectedC16.covers Generated.c16ValueTokens ExpectedC16.mustValueTokens = true ∧
+    ExpectedC16.covers Generated.c16OidTokens ExpectedC16.mustOidTokens = true := by decide +kernel
 
 end RV.Facts.C16
